@@ -148,6 +148,12 @@ func encodeCall(w *dyn.World, id int, cs CallSpec) (*http.Request, error) {
 	switch {
 	case cs.Transport == "asset":
 		return drive.Request("GET", fmt.Sprintf("/c13/asset/%d", cs.Sizes[0]%len(assetSizes)), "", hdr, nil, 0), nil
+	case cs.Transport == "oversize":
+		// a unary body over the receive limit: refused, and whatever it leaves behind in the
+		// pools must not hurt the calls that are parked meanwhile
+		hdr.Set("Content-Type", "application/json")
+		b, _ := protojson.Marshal(payload(w, id, 0, cs.Sizes[0]))
+		return drive.Request("POST", "/c13/echo", "", hdr, bytes.NewReader(b), int64(len(b))), nil
 	case strings.HasPrefix(cs.Transport, "grpc"):
 		for seq, sz := range cs.Sizes {
 			b, _ := proto.Marshal(payload(w, id, seq, sz))
@@ -418,6 +424,9 @@ func CheckInterleave(c ICase) ([]evid.Violation, bool) {
 		if res.Panic != nil {
 			return fail("panic", res.PanicSig(), "call %d panicked: %v", id, res.Panic)
 		}
+		if cs.Transport == "oversize" {
+			continue // refused (or, below the limit, answered): only its side effects on the others matter
+		}
 		if cs.Transport == "asset" {
 			k := cs.Sizes[0] % len(assetSizes)
 			if res.Rec.Code != 200 || !bytes.Equal(res.Rec.Body.Bytes(), pristineAsset(k)) {
@@ -480,6 +489,10 @@ func TestPropInterleave(t *testing.T) {
 		pooled := false
 		for i := 0; i < k; i++ {
 			cs := CallSpec{Transport: rapid.SampledFrom(transports).Draw(t, "transport")}
+			if c.Limit > 0 && rapid.IntRange(0, 7).Draw(t, "oversize") == 0 {
+				c.Calls = append(c.Calls, CallSpec{Transport: "oversize", Sizes: []int{c.Limit + rapid.SampledFrom([]int{1, 100, 3000}).Draw(t, "over")}})
+				continue
+			}
 			if rapid.IntRange(0, 5).Draw(t, "asset") == 0 {
 				cs = CallSpec{Transport: "asset", Sizes: []int{rapid.IntRange(0, len(assetSizes)-1).Draw(t, "assetK")}}
 				c.Calls = append(c.Calls, cs)
